@@ -71,6 +71,13 @@ func lossFilter(p program, dir string, deadAfter *bool) tuberig.Filter {
 					return [][]byte{}
 				}
 			}
+		case "lastack": // once the server has sent a FIN, nothing from the client arrives any more
+			if dir == "b" && isFIN(msg) {
+				*deadAfter = true
+			}
+			if dir == "a" && *deadAfter {
+				return [][]byte{}
+			}
 		case "finack": // everything the server sends right after seeing the first FIN is lost once
 			if dir == "b" && *deadAfter {
 				*deadAfter = false
@@ -111,6 +118,7 @@ func scenario(arg string) *vx.Scenario {
 			}
 		}
 		var wg vsync.WaitGroup
+		running := 0 // program threads still at work (only touched by the one running thread)
 		closedLocally := map[string]bool{}
 		// virtual instants at which each side first asked for closure (Close or Stop) and at which
 		// a Stop was first invoked anywhere
@@ -128,7 +136,18 @@ func scenario(arg string) *vx.Scenario {
 			var from time.Time
 			ok := false
 			if c, okc := closeAsked["client"]; okc {
-				if s, oks := closeAsked["server"]; oks && (p.Loss == "none" || p.Loss == "fin" || p.Loss == "finack") {
+				s, oks := closeAsked["server"]
+				recoverable := p.Loss == "none" || p.Loss == "fin" || p.Loss == "finack"
+				if p.Loss == "lastack" && oks {
+					// the link dies towards the server once the server has sent its FIN: only the end
+					// that closed second (the passive closer, protected by its last-ack timer) is judged
+					other := c
+					if side == "client" {
+						other = s
+					}
+					recoverable = closeAsked[side].After(other)
+				}
+				if oks && recoverable {
 					from, ok = c, true
 					if s.After(from) {
 						from = s
@@ -148,10 +167,12 @@ func scenario(arg string) *vx.Scenario {
 				return
 			}
 			wg.Add(1)
+			running++
 			vrt.Go(func() {
 				defer wg.Done()
+				defer func() { running-- }()
 				for _, o := range ops {
-					if t == nil && o != 's' {
+					if t == nil && o != 's' && o != 'o' && o != 'O' {
 						continue
 					}
 					t0 := vrt.Now()
@@ -177,6 +198,18 @@ func scenario(arg string) *vx.Scenario {
 								vrt.Fail("%s: WaitForClose returned %v of virtual time after closure had become inevitable", side, d)
 							}
 						}
+					case 'o', 'O':
+						// open a further tube from this side (and close it again if that worked)
+						var nt tubes.Tube
+						var err error
+						if o == 'o' {
+							nt, err = mux.CreateReliableTube(9)
+						} else {
+							nt, err = mux.CreateUnreliableTube(9)
+						}
+						if err == nil && nt != nil {
+							nt.Close()
+						}
 					case 's':
 						noteClose(side)
 						if _, ok := stopAsked[side]; !ok {
@@ -198,8 +231,11 @@ func scenario(arg string) *vx.Scenario {
 			vrt.Sleep(400 * time.Millisecond)
 			flag = true
 		}
-		// the environment eventually stops both muxers; everything must then return
-		vrt.Sleep(300 * time.Second)
+		// the environment eventually stops both muxers (at the latest after 140 virtual seconds, at
+		// the earliest once every program thread has returned); everything must then return
+		for waited := 0; waited < 140 && running > 0; waited += 5 {
+			vrt.Sleep(5 * time.Second)
+		}
 		if os.Getenv("VERIF_TRACE") != "" {
 			fmt.Println("BLOCKED BEFORE THE FINAL STOP:\n" + vrt.DumpBlocked())
 		}
@@ -248,8 +284,8 @@ func scenario(arg string) *vx.Scenario {
 func init() { vx.Registry["shutdown"] = scenario }
 
 func programs(thorough bool) (all []program, core []program) {
-	seqs := []string{"c", "cx", "wc", "wcx", "Wc", "rc", "s", "cs", "ws", "x"}
-	losses := []string{"none", "fin", "finack", "after", "dead"}
+	seqs := []string{"c", "cx", "wc", "wcx", "Wc", "rc", "rcx", "s", "cs", "ws", "x", "o"}
+	losses := []string{"none", "fin", "finack", "lastack", "after", "dead"}
 	for _, l := range losses {
 		for _, c := range seqs {
 			for _, sv := range seqs {
@@ -260,13 +296,13 @@ func programs(thorough bool) (all []program, core []program) {
 			}
 		}
 		// second threads: concurrent close / stop against the main sequences
-		for _, b := range [][4]string{{"c", "c", "c", ""}, {"c", "s", "c", ""}, {"wc", "s", "rc", "s"}, {"Wc", "c", "r", ""}, {"cx", "", "cx", "s"}, {"s", "s", "s", ""}, {"wcx", "s", "rcx", "c"}, {"W", "s", "r", "c"}} {
+		for _, b := range [][4]string{{"c", "c", "c", ""}, {"c", "s", "c", ""}, {"wc", "s", "rc", "s"}, {"Wc", "c", "r", ""}, {"cx", "", "cx", "s"}, {"s", "s", "s", ""}, {"wcx", "s", "rcx", "c"}, {"W", "s", "r", "c"}, {"s", "", "x", "o"}, {"s", "", "", "O"}, {"cs", "", "r", "o"}, {"x", "o", "s", ""}} {
 			all = append(all, program{Client: b[0], Client2: b[1], Server: b[2], Server2: b[3], Loss: l})
 		}
 		core = append(core,
 			program{Client: "c", Server: "c", Loss: l}, program{Client: "c", Server: "s", Loss: l}, program{Client: "s", Server: "s", Loss: l},
 			program{Client: "Wc", Client2: "s", Server: "r", Loss: l}, program{Client: "cx", Server: "cx", Loss: l}, program{Client: "c", Client2: "c", Server: "c", Loss: l},
-			program{Client: "wcx", Server: "rcx", Loss: l})
+			program{Client: "wcx", Server: "rcx", Loss: l}, program{Client: "c", Server: "rcx", Loss: l}, program{Client: "s", Server: "x", Server2: "o", Loss: l})
 	}
 	for _, l := range []string{"none", "after", "dead"} {
 		for _, b := range [][2]string{{"c", "c"}, {"wc", "rc"}, {"cx", "s"}, {"s", "c"}, {"c", "x"}} {
@@ -353,18 +389,19 @@ func main() {
 		progs  []program
 		bounds vx.Bounds
 		total  int
+		window int
 	}
 	var phases []phase
 	if r.Quick() {
-		phases = []phase{{"all programs, no deviation", all, vx.Bounds{}, 0}, {"core programs, one deviation (any kind)", core, vx.Bounds{1, 1, 1, 1, 0}, 1}}
+		phases = []phase{{"all programs, no deviation", all, vx.Bounds{}, 0, 0}, {"core programs, one deviation (any kind) among the first 2500 choice points", core, vx.Bounds{1, 1, 1, 1, 0}, 1, 2500}}
 	} else {
-		phases = []phase{{"all programs, one deviation (any kind)", all, vx.Bounds{1, 1, 1, 1, 0}, 1}, {"core programs, two deviations (any kinds)", core, vx.Bounds{2, 2, 2, 1, 0}, 2}}
+		phases = []phase{{"all programs, one deviation (any kind)", all, vx.Bounds{1, 1, 1, 1, 0}, 1, 0}, {"core programs, two deviations (any kinds) among the first 600 choice points", core, vx.Bounds{2, 2, 2, 1, 0}, 2, 600}}
 	}
-	r.SetRule("two real tube muxers (rewritten at check time for the deterministic scheduler + virtual clock) over an in-memory link; one tube opened by the client; per side a main thread with a sequence of <=3 operations from {Write 1 byte, Write 40000 bytes, Read, Close, WaitForClose, Stop} and an optional second thread issuing a concurrent Close or Stop; loss patterns {none, first FIN lost, reply to the first FIN lost, everything lost after 400 ms, dead network from the start}; at virtual time 300 s the environment stops both muxers. Every program is executed under every schedule within the phase's deviation bounds (iterative bounding; executions run to completion). Oracles: no deadlock, no panic in any thread (e.g. send on closed channel), every Close returns, Stop returns within 10 virtual seconds; WaitForClose returns within 120 virtual seconds of closure having become inevitable (both ends asked for it on a link that recovers, or the local muxer was told to stop), no thread alive 20 virtual seconds after both muxers stopped, after local close Write fails and Read ends with end-of-stream. states = distinct schedules; transitions = choice points met.")
+	r.SetRule("two real tube muxers (rewritten at check time for the deterministic scheduler + virtual clock) over an in-memory link; one tube opened by the client; per side a main thread with a sequence of <=3 operations from {Write 1 byte, Write 40000 bytes, Read, Close, WaitForClose, Stop, open+close a further tube} and an optional second thread issuing a concurrent Close or Stop; loss patterns {none, first FIN lost, reply to the first FIN lost, everything from the client lost once the server has sent its FIN (lost last ACK), everything lost after 400 ms, dead network from the start}; the environment stops both muxers once all program threads returned, at the latest at virtual time 140 s. Every program is executed under every schedule within the phase's deviation bounds (iterative bounding; executions run to completion). Oracles: no deadlock, no panic in any thread (e.g. send on closed channel), every Close returns, Stop returns within 10 virtual seconds; WaitForClose returns within 120 virtual seconds of closure having become inevitable (both ends asked for it on a link that recovers, or the local muxer was told to stop), no thread alive 20 virtual seconds after both muxers stopped, after local close Write fails and Read ends with end-of-stream. states = distinct schedules; transitions = choice points met.")
 	var execs, points int64
 	traces := 0
 	for _, ph := range phases {
-		e := &vx.Explorer{Bounds: ph.bounds, Total: ph.total, MaxExec: 3000000, Deadline: r.Deadline}
+		e := &vx.Explorer{Bounds: ph.bounds, Total: ph.total, Window: ph.window, MaxExec: 3000000, Deadline: r.Deadline}
 		var phExec int64
 		for i, p := range ph.progs {
 			if r.Expired() {
@@ -399,7 +436,7 @@ func main() {
 				fmt.Printf("phase %q prog %s exec=%d maxpoints=%d problems=%d\n", ph.name, p, st.Executions, st.MaxPoints, len(st.Problems))
 			}
 		}
-		r.SampleForce(map[string]any{"phase": ph.name, "programs": len(ph.progs), "bounds": ph.bounds.String(), "total_deviations": ph.total, "executions": phExec})
+		r.SampleForce(map[string]any{"phase": ph.name, "programs": len(ph.progs), "bounds": ph.bounds.String(), "total_deviations": ph.total, "deviation_window": ph.window, "executions": phExec})
 	}
 	r.EvalN(execs)
 	r.Graph(int64(traces), points, execs)
